@@ -124,6 +124,8 @@ def run(ctx):
             subsets += [tuple(r for r in ids if r != x) for x in ids[::7]]
             for _ in range(60 if ctx.thorough() else 10):
                 subsets.append(tuple(sorted(rng.sample(ids, rng.randrange(2, len(ids))), key=ids.index)))
+        # a list that names no existing residue: nothing titrates (census with an empty listed set)
+        cases.append((f"{name} -i Z:999,A:998B", text, ["-i", "Z:999,A:998B"]))
         for sub in subsets:
             if not sub:
                 continue
